@@ -637,16 +637,6 @@ theorem normalized_amounts_fit_every_configuration (c : LocalCfg) (hc : Sane c)
 `setupSemaphores`: `procsSem = NewResourceSemaphore(rlimMax)`, then
 `procsSem.Acquire(startingThreadCount)` for mrp itself — never released. -/
 
-/-- the process semaphore after `setupSemaphores` (with `UpdateSize(rlimCur)`) is
-the semaphore of size `rlimMax - 45` "shifted" by a standing reservation of 45 -/
-theorem procs_semaphore_after_setup (rmax rcur : Int) (h : startingThreadCount ≤ rmax) :
-    (run (Sem.init rmax) [.acquire 0 startingThreadCount, .updSize rcur]).1
-      = (⟨rmax - startingThreadCount, rcur - startingThreadCount, 0, []⟩ : Sem).shift startingThreadCount := by
-  have hfit : startingThreadCount ≤ rmax - 0 := by omega
-  simp only [run, step, Sem.init, hfit, List.isEmpty_nil, and_self, if_true, Sem.setCur, Sem.wake, runJobs,
-    Sem.shift]
-  split <;> simp <;> omega
-
 /-- **A standing reservation makes a smaller semaphore.**  For every sequence
 of `Acquire`/`Release` calls (the client protocol of `Enqueue`) in which no
 request lies strictly between the smaller size `m` and the real maximum `m + d`,
@@ -683,23 +673,28 @@ theorem standing_reservation_parks_request_between_sizes :
 (cores → memory → vmem → processes), the order `acquireAmounts` lists them in;
 fails on a tree whose `Enqueue` acquires in another order. -/
 theorem acquire_order_ok :
+    Gen.localAcquireOrder_extracted = true ∧
     Gen.localAcquireOrder = ["centcoreSem", "memMBSem", "vmemMBSem", "procsSem"] := by decide
 
 /-- the per-job process estimate constant used by the model is the one in the source -/
-theorem procs_per_job_ok : Gen.localProcsPerJob = procsPerJob := by decide
+theorem procs_per_job_ok :
+    Gen.localProcsPerJob_extracted = true ∧ Gen.localProcsPerJob = procsPerJob := by decide
 
 /-- `UpdateSize` has exactly one caller in martian: `setupSemaphores`, on the
 process semaphore, with `rlimCur` (≤ `rlimMax`, the size it was created with).
 The core, memory and vmem semaphores never see it. -/
 theorem updateSize_called_only_in_setup :
+    Gen.updateSizeCalls_extracted = true ∧
     Gen.updateSizeCalls = [("jobmanager_local.go", "setupSemaphores", "self.procsSem", "rlimCur(rlim)")] := by
   decide
 
 /-- the deferred releases of `Enqueue` are written in acquisition order, so they
 run in reverse acquisition order, as `Sys.act` releases -/
-theorem release_order_ok : Gen.localReleaseOrder = Gen.localAcquireOrder := by decide
+theorem release_order_ok :
+    Gen.localReleaseOrder_extracted = true ∧ Gen.localReleaseOrder = Gen.localAcquireOrder := by decide
 
-theorem starting_threads_ok : Gen.localStartingThreads = startingThreadCount := by decide
+theorem starting_threads_ok :
+    Gen.localStartingThreads_extracted = true ∧ Gen.localStartingThreads = startingThreadCount := by decide
 
 /-! ### The arithmetic the model mirrors, statement by statement
 
@@ -729,6 +724,13 @@ theorem skel_Acquire_ok :
      "return nil"] := by
   first | exact Or.inr rfl | exact Or.inl rfl
 
+/-- `Enqueue`: only the lines that mention a semaphore, an amount, `GetSystemReqs` or
+`executeLocal` are kept (filter `enqueueKeep`): the Acquire calls with their amount
+expressions and the Release calls, in source order.  The `if err != nil` / `return` lines of
+the refusal path and the `defer func` lines are NOT in this skeleton: that a refusal returns
+and gives back what is held, and that the releases are deferred, is pinned by
+`release_order_ok` (which looks inside the `defer` statements) and by the differential run of
+real jobs (refused jobs, reservations at every quiescent point). -/
 theorem skel_Enqueue_ok :
     Gen.c12Skel_Enqueue_extracted = false ∨ Gen.c12Skel_Enqueue =
     ["res := self.GetSystemReqs(resRequest)",
@@ -749,58 +751,12 @@ theorem skel_Enqueue_ok :
      "err := executeLocal(cmd, stdoutPath, stderrPath, localpreflight, metadata)"] := by
   first | exact Or.inr rfl | exact Or.inl rfl
 
-theorem skel_GetSystemReqs_ok :
-    Gen.c12Skel_GetSystemReqs_extracted = false ∨ Gen.c12Skel_GetSystemReqs =
-    ["result := *request",
-     "if result.Threads < 0",
-     "centiCores = int(math.Floor(result.Threads * 100))",
-     "else",
-     "centiCores = int(math.Ceil(result.Threads * 100))",
-     "if centiCores == 0",
-     "centiCores = self.jobSettings.ThreadsPerJob * 100",
-     "else",
-     "if centiCores < 0",
-     "centiCores = self.maxCores * 100",
-     "if centiCores > self.maxCores*100",
-     "result.Threads = float64(self.maxCores)",
-     "else",
-     "result.Threads = float64(centiCores) / 100",
-     "if result.MemGB < 0",
-     "memMb = int64(math.Floor(result.MemGB * 1024))",
-     "else",
-     "memMb = int64(math.Ceil(result.MemGB * 1024))",
-     "if memMb == 0",
-     "memMb = int64(self.jobSettings.MemGBPerJob) * 1024",
-     "else",
-     "if memMb < 0",
-     "avail := self.memMBSem.CurrentSize()",
-     "if avail < 1 || avail < -memMb",
-     "memMb = -memMb",
-     "else",
-     "memMb = avail",
-     "if result.VMemGB < 0",
-     "vmemMb = int64(math.Floor(result.VMemGB * 1024))",
-     "else",
-     "vmemMb = int64(math.Ceil(result.VMemGB * 1024))",
-     "if vmemMb == 0",
-     "vmemMb = memMb + int64(self.jobSettings.ExtraVmemGB)*1024",
-     "if vmemMb < 0",
-     "if self.vmemMBSem != nil",
-     "avail := self.vmemMBSem.CurrentSize()",
-     "if avail < 1 || avail < -vmemMb",
-     "vmemMb = -vmemMb",
-     "else",
-     "vmemMb = avail",
-     "if memMb > int64(self.maxMemGB)*1024",
-     "memMb = int64(self.maxMemGB) * 1024",
-     "if self.maxVmemMB > 0 && vmemMb > self.maxVmemMB",
-     "vmemMb = self.maxVmemMB",
-     "if vmemMb > 0 && vmemMb < memMb",
-     "vmemMb = memMb",
-     "result.MemGB = float64(memMb) / 1024",
-     "result.VMemGB = float64(vmemMb) / 1024",
-     "return result"] := by
-  first | exact Or.inr rfl | exact Or.inl rfl
+/- `skel_GetSystemReqs_ok` (the textual skeleton of `GetSystemReqs`) has been RETIRED: the
+integer logic of `GetSystemReqs` is now translated from the Go source on every run and tied by
+theorems (`Props/C12Tie.lean`: `tr_GSR_centi_eq_model`, `tr_GSR_mem_eq_model`,
+`tr_GSR_vmem_eq_model`, `tr_GSR_normalize`), which tolerate harmless rewrites the textual
+skeleton alarmed on; the differential GetSystemReqs vs `normalize` stays. -/
+
 
 theorem skel_MaxJobsAcquire_ok :
     Gen.c12Skel_MaxJobsAcquire_extracted = false ∨ Gen.c12Skel_MaxJobsAcquire =
@@ -950,7 +906,7 @@ memory `UpdateFreeUsed(free, rss of mrp's CHILDREN — mrp itself excluded)`,
 vmem `UpdateActual(max - vmem of the children)`, cores `UpdateActual(idle cores)`,
 processes `UpdateFreeUsed(rlimit - user's processes, children + startingThreadCount)`. -/
 theorem skel_refreshResources_ok :
-    Gen.c12Skel_refreshResources_extracted = false ∨ Gen.c12Skel_refreshResources =
+    Gen.c12Skel_refreshResources_extracted = true ∧ Gen.c12Skel_refreshResources =
     ["err := sysMem.Get()",
      "usedMem, err := GetProcessTreeMemory(os.Getpid(), false, nil)",
      "memDiff := self.memMBSem.UpdateFreeUsed( (sysMem.ActualFree+1024*1024-1)/(1024*1024), (usedMem.Rss+1024*1024-1)/(1024*1024))",
@@ -963,7 +919,7 @@ theorem skel_refreshResources_ok :
      "rlim, err := GetMaxProcs()",
      "userProcs, err := GetUserProcessCount()",
      "self.procsSem.UpdateFreeUsed( rlimCur(rlim)-int64(userProcs), int64(usedMem.Procs)+startingThreadCount)"] := by
-  first | exact Or.inr rfl | exact Or.inl rfl
+  exact ⟨rfl, rfl⟩
 
 theorem skel_setupSemaphores_ok :
     Gen.c12Skel_setupSemaphores_extracted = false ∨ Gen.c12Skel_setupSemaphores =
@@ -1121,22 +1077,21 @@ theorem own_usage_as_reservation_parks_limit_job :
 /-- regenerated: `refreshResources` samples the tree BELOW mrp
 (`GetProcessTreeMemory(os.Getpid(), false, nil)`) -/
 theorem refresh_excludes_own_usage :
-    Gen.refreshTreeIncludesParent = false ∧
-    (Gen.refreshTreeCall_extracted = false ∨ Gen.refreshTreeCall = ["os.Getpid()", "false", "nil"]) := by
-  refine ⟨by decide, ?_⟩
-  first | exact Or.inr rfl | exact Or.inl rfl
+    Gen.refreshTreeIncludesParent_extracted = true ∧ Gen.refreshTreeIncludesParent = false ∧
+    Gen.refreshTreeCall_extracted = true ∧ Gen.refreshTreeCall = ["os.Getpid()", "false", "nil"] := by
+  decide
 
 /-- regenerated: the argument expressions of the four `Update*` calls are the
 ones `memArgs` / `vmemArg` / `coresArg` / `procsArgs` model -/
 theorem refresh_update_args_ok :
-    Gen.refreshUpdateArgs_extracted = false ∨ Gen.refreshUpdateArgs =
+    Gen.refreshUpdateArgs_extracted = true ∧ Gen.refreshUpdateArgs =
     [("memMBSem", "UpdateFreeUsed", ["(sysMem.ActualFree + 1024*1024 - 1) / (1024 * 1024)",
         "(usedMem.Rss + 1024*1024 - 1) / (1024 * 1024)"]),
      ("vmemMBSem", "UpdateActual", ["self.maxVmemMB - usedMem.Vmem/(1024*1024)"]),
      ("centcoreSem", "UpdateActual", ["int64((float64(runtime.NumCPU()) - load.One + 0.9) * 100)"]),
      ("procsSem", "UpdateFreeUsed", ["rlimCur(rlim) - int64(userProcs)",
         "int64(usedMem.Procs) + startingThreadCount"])] := by
-  first | exact Or.inr rfl | exact Or.inl rfl
+  exact ⟨rfl, rfl⟩
 
 end Refresh
 
@@ -1151,11 +1106,6 @@ it never writes anything) does not keep the pipestance waiting for ever. -/
 
 section QueueQuery
 open Martian
-
-/-- the jobs of the state after a run are the jobs of the state before, each followed through the run -/
-theorem run_follows_jobs (s : SemaphoreQueue.Q) (evs : List SemaphoreQueue.Ev) :
-    (SemaphoreQueue.run s evs).jobs = s.jobs.map (SemaphoreQueue.jobRun s evs) :=
-  SemaphoreQueue.run_jobs s evs
 
 /-- **Safety, one event.**  The only thing that fails a job "not queued or
 running" is a `refreshState` at a time `t` later than mark + grace period, where
@@ -1284,6 +1234,7 @@ theorem empty_answer_marks_every_queried_job :
 
 /-- the grace period of a configured job mode: `queue_query_grace_secs`, one hour when 0 -/
 theorem grace_default_ok :
+    Gen.queueGraceDefaultSecs_extracted = true ∧
     SemaphoreQueue.graceOfConfig 0 Gen.queueGraceDefaultSecs = 3600 ∧
     SemaphoreQueue.graceOfConfig 40 Gen.queueGraceDefaultSecs = 40 := by decide
 
@@ -1525,5 +1476,32 @@ example :
     ((MJ.init 2).run [.attempt 1 .waiting false, .attempt 2 .queued false]).running = [1, 2] ∧
     (((MJ.init 2).run [.attempt 1 .waiting false, .attempt 2 .queued false]).attempt 3 .waiting false).2 = none := by
   decide
+
+/-! ### definitional unfoldings (documentation of the model, not guarantees) -/
+
+section Unfoldings
+open Martian
+
+/-- the jobs of the state after a run are the jobs of the state before, each followed through the run -/
+theorem run_follows_jobs (s : SemaphoreQueue.Q) (evs : List SemaphoreQueue.Ev) :
+    (SemaphoreQueue.run s evs).jobs = s.jobs.map (SemaphoreQueue.jobRun s evs) :=
+  SemaphoreQueue.run_jobs s evs
+
+/-- the process semaphore after `setupSemaphores` (with `UpdateSize(rlimCur)`) is
+the semaphore of size `rlimMax - 45` "shifted" by a standing reservation of 45 -/
+theorem procs_semaphore_after_setup (rmax rcur : Int) (h : startingThreadCount ≤ rmax) :
+    (run (Sem.init rmax) [.acquire 0 startingThreadCount, .updSize rcur]).1
+      = (⟨rmax - startingThreadCount, rcur - startingThreadCount, 0, []⟩ : Sem).shift startingThreadCount := by
+  have hfit : startingThreadCount ≤ rmax - 0 := by omega
+  simp only [run, step, Sem.init, hfit, List.isEmpty_nil, and_self, if_true, Sem.setCur, Sem.wake, runJobs,
+    Sem.shift]
+  split <;> simp <;> omega
+
+/-- the Boolean the driver evaluates on every real configuration (`C12.cfgsizes`)
+is the hypothesis `Sane` of the clamping theorems -/
+theorem saneB_iff_Sane (c : LocalCfg) : saneB c = true ↔ Sane c := by
+  simp [saneB, Sane, and_assoc]
+
+end Unfoldings
 
 end Props.C12
